@@ -4,5 +4,5 @@ AllTypes   == Types
 QuickMuts  == {"insf", "dup", "swap", "bad", "del", "letter"}
 AllMuts    == {"insf", "dup", "swap", "bad", "del", "letter", "own"}
 AllModes   == {"sparse", "full", "cofull", "cap", "overcap"}
-BaseModes  == {"sparse", "full"}
+BaseModes  == {"sparse", "full", "cofull"}
 =============================================================================
